@@ -2,6 +2,8 @@
 
 package middleware
 
+import "time"
+
 // Accessors for the C12 (bounded work per request) check. No behaviour change.
 
 // VerifC12MaxResolutionAttempts exposes the RFC 9520 per-tuple ceiling.
@@ -31,4 +33,23 @@ func VerifC12CheckLocal(l *RecursionWorkLedger, kind RecursionWorkKind, used uin
 // VerifC12Reject is reject with an explicit latch flag.
 func VerifC12Reject(l *RecursionWorkLedger, kind RecursionWorkKind, latch bool) error {
 	return l.reject(kind, latch)
+}
+
+// VerifC12WireRequest returns a wire-born request for raw, as a listener's
+// strict path hands it to Chain.ResetWire (nil when ParseWire refuses it).
+func VerifC12WireRequest(raw []byte) *Request {
+	r := new(Request)
+	if !r.ParseWire(raw, time.Now(), nil) {
+		return nil
+	}
+	return r
+}
+
+// VerifC12DetachedKeepsPolicy runs the real ResponseMeta.detachedCopy on a meta that has a work
+// policy but no request-tree state yet (the normal wire-born cache miss) and reports whether the
+// detached meta still carries an enabled policy.
+func VerifC12DetachedKeepsPolicy(p RecursionWorkPolicy) bool {
+	m := &ResponseMeta{workPolicy: p}
+	d := m.detachedCopy()
+	return d != nil && d.workPolicy.Enabled() == p.Enabled() && d.workPolicy == p
 }
